@@ -177,21 +177,30 @@ def build_cli():
                          '--target-dir %s 2>&1' % (lib.REPO, CLI_DIR), timeout=1800)
     return None if rc == 0 else out[-1500:]
 
+_HANGS = [0]
+
 def run_cli(n, js):
     """js: True = rfactor --json, False = rfactor, 'main' = rust-number-theory <config with to_find = factorization>.
-    -> ('ok', [[p, e]...]) | ('panic', message) | ('bad', text)"""
+    -> ('ok', [[p, e]...]) | ('panic', message) | ('bad', text) | ('hang', text)"""
     env = dict(os.environ, RUST_BACKTRACE='0')
-    if js == 'main':
-        import tempfile
-        with tempfile.NamedTemporaryFile('w', suffix='.toml', delete=False) as f:
-            f.write('to_find = ["factorization"]\n\n[input]\ninteger = "%d"\n' % n)
-        try:
-            p = subprocess.run([MAIN_BIN, f.name], stdout=subprocess.PIPE, stderr=subprocess.PIPE, text=True, timeout=300, env=env)
-        finally:
-            os.unlink(f.name)
-    else:
-        args = [CLI_BIN] + (['--json'] if js else []) + ['--', str(n)]
-        p = subprocess.run(args, stdout=subprocess.PIPE, stderr=subprocess.PIPE, text=True, timeout=300, env=env)
+    # a binary that does not answer is a result (C01 claims termination), not a crash of the check; after two
+    # hangs the remaining command-line cases get a short limit so that the run still ends in minutes
+    limit = 120 if _HANGS[0] < 2 else 15
+    try:
+        if js == 'main':
+            import tempfile
+            with tempfile.NamedTemporaryFile('w', suffix='.toml', delete=False) as f:
+                f.write('to_find = ["factorization"]\n\n[input]\ninteger = "%d"\n' % n)
+            try:
+                p = subprocess.run([MAIN_BIN, f.name], stdout=subprocess.PIPE, stderr=subprocess.PIPE, text=True, timeout=limit, env=env)
+            finally:
+                os.unlink(f.name)
+        else:
+            args = [CLI_BIN] + (['--json'] if js else []) + ['--', str(n)]
+            p = subprocess.run(args, stdout=subprocess.PIPE, stderr=subprocess.PIPE, text=True, timeout=limit, env=env)
+    except subprocess.TimeoutExpired:
+        _HANGS[0] += 1
+        return ('hang', 'no answer within %d s' % limit)
     if p.returncode != 0:
         return ('panic', p.stderr.strip().replace('\n', ' ')[:200])
     try:
@@ -228,6 +237,7 @@ def c_cli(n, js, tag):
         return None
     def orc(ia):
         if kind == 'panic': return None if n <= 0 else 'rfactor %d panicked: %s' % (n, val)
+        if kind == 'hang': return '%s %d does not terminate: %s' % (name, n, val)
         if kind != 'ok': return 'rfactor %d: unparsable output %r' % (n, val)
         class A: pass
         a = A(); a.kind = 'ok'; a.val = [Id('ret'), [val, 0, 0], []]; a.raw = str(val)
